@@ -108,7 +108,9 @@ class AstToODataVisitor(visitor.NodeVisitor):
     def visit_BinOp(self, node: ast.BinOp) -> str:
         """:meta private:"""
         left = self._visit_and_paren_if_precedence_lower(node.left, type(node.op))
-        right = self._visit_and_paren_if_precedence_lower(node.right, type(node.op))
+        right = self._visit_and_paren_if_precedence_lower(
+            node.right, type(node.op), is_right_operand=True
+        )
         return left + " " + self.visit(node.op) + " " + right
 
     def visit_Eq(self, node: ast.Eq) -> str:
@@ -145,7 +147,7 @@ class AstToODataVisitor(visitor.NodeVisitor):
             node.left, type(node.comparator)
         )
         right = self._visit_and_paren_if_precedence_lower(
-            node.right, type(node.comparator)
+            node.right, type(node.comparator), is_right_operand=True
         )
         return left + " " + self.visit(node.comparator) + " " + right
 
@@ -160,7 +162,9 @@ class AstToODataVisitor(visitor.NodeVisitor):
     def visit_BoolOp(self, node: ast.BoolOp) -> str:
         """:meta private:"""
         left = self._visit_and_paren_if_precedence_lower(node.left, type(node.op))
-        right = self._visit_and_paren_if_precedence_lower(node.right, type(node.op))
+        right = self._visit_and_paren_if_precedence_lower(
+            node.right, type(node.op), is_right_operand=True
+        )
         return left + " " + self.visit(node.op) + " " + right
 
     def visit_Not(self, node: ast.Not) -> str:
@@ -209,11 +213,16 @@ class AstToODataVisitor(visitor.NodeVisitor):
         )
 
     def _visit_and_paren_if_precedence_lower(
-        self, node: ast._Node, precedence: Type[ast._Node]
+        self,
+        node: ast._Node,
+        precedence: Type[ast._Node],
+        is_right_operand: bool = False,
     ) -> str:
         """
         Transform `node` by visiting it, then wrap the result in parentheses if
-        the expressions precedence is lower than that of `precedence`.
+        the expressions precedence is lower than that of `precedence`. Binary
+        operators associate to the left, so a right operand of equal
+        precedence is wrapped as well.
 
         :meta private:
         """
@@ -229,7 +238,9 @@ class AstToODataVisitor(visitor.NodeVisitor):
         node_prec = PRECEDENCE.get(node_op, 100)
         check_prec = PRECEDENCE.get(precedence, 100)
 
-        if node_prec < check_prec:
+        if node_prec < check_prec or (
+            is_right_operand and node_op in PRECEDENCE and node_prec == check_prec
+        ):
             res = "(" + res + ")"
 
         return res
